@@ -18,13 +18,14 @@ func init() {
 		Explanation: "Decided (structural necessary conditions, all over the type-checked SSA of the current tree): " +
 			"E-close — every declared EnumerateBlobs/StreamBlobs method of every implementer of blobserver.BlobEnumerator/BlobStreamer (and every function such a method hands its channel to) reaches every non-panic exit with dest closed exactly once: by close, a registered defer, a deferred/spawned literal that closes on all its paths, or by handing dest to a callee that is itself checked (interface EnumerateBlobs/StreamBlobs calls discharge by contract because every implementer is in the instance set); no path closes twice. One exception, re-checked structurally on every run: cond.(*condStorage).EnumerateBlobs' exit with sto.read == nil is pruned only while every condStorage is built by a function that stores Loader.GetStorage's result into .read and returns the object only on that call's err == nil edge. " +
 			"E-cursor — for the backends C01 names plus the index: a leaf enumerator skips, within the same loop iteration, every element whose key compares <= the cursor (or == when the iterator was positioned by an inclusive sorted.KeyValue.Find on the cursor); a merging enumerator forwards the cursor to every sub-enumeration; a forwarding enumerator passes on a cursor built only from `after`; a cursor test hidden in a helper function is reported undecided, never passed. " +
-			"E-limit — a leaf/merging enumerator has a comparison between a send counter and limit (or a decremented limit and 0) whose stop edge reaches no further send, that is re-evaluated in the loop of the send, stops at count >= limit (not limit+1), and whose counter is updated on the path of the send; forwarders pass on a limit derived from `limit`. " +
+			"E-limit — a leaf/merging enumerator has a comparison between a send counter and limit (or a decremented limit and 0) whose stop edge reaches no further send, that is re-evaluated in the loop of the send, stops at count >= limit (not limit+1), and whose counter (a captured variable, or a register followed through the phis of nested loops and of conditional steps) is updated on the path of the send; forwarders pass on a limit derived from `limit`. " +
 			"S-route — in shard every read index into shardStorage.shards is computed by shardNum, shardNum is a function of the ref and the shard count only, each shard() caller passes the same ref to the chosen shard, and batchedShards files each ref under shardNum(ref) and hands each shard exactly the list filed under its own index. " +
 			"O-tomb — overlay: a nil-error ReceiveBlob implies upper.ReceiveBlob succeeded and, when a tombstone store exists, the tombstone of the same ref was deleted successfully; a nil-error RemoveBlobs implies a committed batch that Sets every ref; Fetch, StatBlobs and EnumerateBlobs yield only under isDeleted == false for the ref yielded; isDeleted answers true only on a successful Get of the ref's key; all tombstone keys are Ref.String() of the ref. " +
 			"M-dedup — mergedEnumerate: the discard predicate, evaluated symbolically for ref <, ==, > lastSent, means ref <= lastSent (and false before anything was sent), Take() happens only under that predicate being true for the peeked ref of the same peeker, the filter precedes the selection of the candidate from the same peeker in every iteration, and lastSent is assigned the sent ref in the sending iteration. " +
 			"M-lowest — mergedEnumerate replaces the merge candidate only on the true edge of Less(new candidate, current lowest). " +
 			"E-sorted — a leaf enumerator of the C01 backends that does not iterate a sorted.KeyValue (memory, files) sorts the very slice it ranges over for its sends, before the sends. " +
-			"NOT decided: byte-for-byte equality of fetched data, size correctness, that a sorted.KeyValue iterator yields ascending keys (C10) or that the comparator used by a sort call is the blobref text order, that the bypass conditions around the cursor guard (first-iteration flags, after != \"\") are right, cursor semantics of cloud back ends (s3, gcs, azure, mongo, remote: E-close only), duplicate-receive no-op, any statement about histories, compositions or paging completeness. Those need execution.",
+			"E-refill — filtering re-enumerators, computed over every dest-owning function of every implementer of BlobEnumerator (today: overlay only): a loop that starts a sub-enumeration on a fresh channel (directly or through a literal it starts), drains that channel in a nested receive loop that sends on dest on some iterations only, and goes round again. The integer variables of the round are classified by how they evolve, not by name or form (send counter: 0 before the loop and +1 exactly in the blocks entered when an element was sent on dest, or the mirror-image budget that starts at limit and is decremented there; per-round receive counter: 0 at the start of each round and +1 once per iteration of the receive loop; registers and captured variables alike), and the code before and after the receive loop is then evaluated in every world with limit 1..6, 0..limit sent before the round, R requested, 0..R received, 0..received sent, following both edges of every branch that cannot be evaluated. Decided per refill loop: (request) every round asks for at least 1 and at most limit-sent elements; (exit) every return that can report success lies only in worlds where the page is full or this round received fewer than this round asked for; (progress) the loop goes round again only in worlds where this round received something; (cursor) on every path to the next round the cursor passed to the sub-enumeration is Ref.String() of a variable that every iteration of the receive loop overwrites with the received ref (last received, not last sent). Shapes that cannot be followed (elements received through a helper or peeker, receive loop left by a success return or break, cursor assigned at several places) are reported undecided. " +
+			"NOT decided: for E-refill: that the sub-enumeration's error is examined before exhaustion is concluded, that the filter itself is right (O-tomb), enumerating pagers that are not enumerators (blobserver.EnumerateAllFrom), and non-refilling filters; byte-for-byte equality of fetched data, size correctness, that a sorted.KeyValue iterator yields ascending keys (C10) or that the comparator used by a sort call is the blobref text order, that the bypass conditions around the cursor guard (first-iteration flags, after != \"\") are right, cursor semantics of cloud back ends (s3, gcs, azure, mongo, remote: E-close only), duplicate-receive no-op, any statement about histories, compositions or paging completeness. Those need execution.",
 		RuleDocs: map[string]string{
 			"E-close":  "every declared EnumerateBlobs/StreamBlobs method (exhaustive over implementers) + every static callee that receives dest: dest is closed exactly once on every path to every non-panic exit (close, defer, literal that closes, or delegation to a checked callee)",
 			"E-cursor": "enumerators of the C01 backends + index + the merged-enumerate helpers: leaf: each send is skipped in-iteration on the key<=cursor (or key==cursor after Find(cursor)) edge of a comparison against a value built only from `after`; merge: cursor forwarded to all sub-enumerations; forwarder: cursor argument built only from `after`",
@@ -34,11 +35,12 @@ func init() {
 			"M-dedup":  "mergedEnumerate: discard predicate means ref <= lastSent (evaluated symbolically); Take only under predicate true on the same peeker; filter before candidate selection; lastSent recorded in the sending iteration",
 			"E-sorted": "leaf enumerators of the C01 backends whose elements do not come from a sorted.KeyValue iterator (memory: map keys, files: directory listing): the slice ranged over for the sends is the argument of a sort/slices sorting call that dominates the send",
 			"M-lowest": "mergedEnumerate: every Ref.Less-controlled edge into the assignment of the merge candidate is the true edge of Less(candidate, current lowest)",
+			"E-refill": "every loop of a dest-owning enumerator function (all implementers of BlobEnumerator + dest delegates) that starts a sub-enumeration, drains it in a nested receive loop that sends on dest on some iterations only, and repeats: evaluated in all worlds limit 1..6 x sent-before x requested x received x sent-now: request in [1, limit-sent]; success returns only where page full or received < requested by this round; next round only where received >= 1; next cursor = Ref.String() of the last ref received (overwritten in every receive iteration) on every path to the next round",
 		},
 		Run:       runC01,
 		DesignRef: "DESIGN.md §4 C01",
-		Technique: "static analysis: CFG path typestate (channel closed exactly once, inter-procedural by summaries), in-iteration skip-edge reachability for cursor guards, control dependence of sends on limit comparisons, dominance/err==nil-edge rules for tombstones, value-dependence for shard routing, symbolic evaluation of the merge's discard predicate",
-		LevelText: "Decides structural necessary conditions only: enumeration channels are always closed exactly once; the named backends' enumerators contain an exclusive cursor guard and a limit bound wired to the send loop; shard routing is one function of the ref; overlay tombstones are written/cleared before success is reported and consulted before yielding; merged enumeration picks the lowest head and suppresses duplicates against the last sent ref; memory and files sort what they range over. Does not decide map semantics for any history, byte equality, sortedness of leaf output, paging completeness or compositions (level 'other').",
+		Technique: "static analysis: CFG path typestate (channel closed exactly once, inter-procedural by summaries), in-iteration skip-edge reachability for cursor guards, control dependence of sends on limit comparisons, dominance/err==nil-edge rules for tombstones, value-dependence for shard routing, symbolic evaluation of the merge's discard predicate, role classification of loop-carried counters (phi webs and captured cells) plus exhaustive small-world evaluation of the refill protocol's branch conditions",
+		LevelText: "Decides structural necessary conditions only: enumeration channels are always closed exactly once; the named backends' enumerators contain an exclusive cursor guard and a limit bound wired to the send loop; shard routing is one function of the ref; overlay tombstones are written/cleared before success is reported and consulted before yielding; merged enumeration picks the lowest head and suppresses duplicates against the last sent ref; memory and files sort what they range over; a filtering enumerator that refills its page (overlay) asks each round for exactly the missing number, concludes exhaustion only from the round it just ran, repeats only after receiving something, and resumes after the last ref received. Does not decide map semantics for any history, byte equality, sortedness of leaf output, paging completeness or compositions (level 'other').",
 	})
 }
 
@@ -50,6 +52,7 @@ func runC01(p *Program, r *Reporter) {
 	c01RuleCursor(p, r, insts)
 	c01RuleLimit(p, r, insts)
 	c01RuleSorted(p, r, insts)
+	c01RuleRefill(p, r)
 	c01RuleSRoute(p, r)
 	c01RuleOTomb(p, r)
 	c01RuleMDedup(p, r)
@@ -916,6 +919,13 @@ func c01BuildInst(root *ssa.Function, dest, after, limit *ssa.Parameter) (*c01In
 // c01ScopeInstances: in-scope EnumerateBlobs methods plus, transitively, the
 // static module callees of EnumerateBlobs shape they hand dest to.
 func c01ScopeInstances(p *Program) []*c01Inst {
+	return c01Instances(p, func(rel string) bool { return c01ScopePkgs[rel] })
+}
+
+// c01Instances: the EnumerateBlobs methods of the packages selected by inPkg
+// plus, transitively, the static module callees of EnumerateBlobs shape they
+// hand dest to.
+func c01Instances(p *Program, inPkg func(rel string) bool) []*c01Inst {
 	var out []*c01Inst
 	seen := map[*ssa.Function]bool{}
 	var add func(fn *ssa.Function, dest, after, limit *ssa.Parameter)
@@ -943,7 +953,7 @@ func c01ScopeInstances(p *Program) []*c01Inst {
 		}
 	}
 	for _, e := range c01Enumerators(p) {
-		if e.Kind != "EnumerateBlobs" || !c01ScopePkgs[RelPkg(e.Fn.Pkg.Pkg)] {
+		if e.Kind != "EnumerateBlobs" || !inPkg(RelPkg(e.Fn.Pkg.Pkg)) {
 			continue
 		}
 		add(e.Fn, e.Dest, e.After, e.Limit)
@@ -1309,18 +1319,62 @@ func c01CounterOf(v ssa.Value, g *ssa.Function) (ct c01Counter, ok bool) {
 	}
 	switch x := v.(type) {
 	case *ssa.Phi:
-		self := func(o ssa.Value) bool { return o == ssa.Value(x) }
-		for _, e := range x.Edges {
-			switch {
-			case e == ssa.Value(x):
-			case isStep(e, self):
-				ct.updates = append(ct.updates, e.(*ssa.BinOp))
-			default:
-				if k, isK := ConstInt(e); isK {
-					ct.initKnown, ct.init = true, k
+		// the variable's phi web: a counter carried through nested loops is a phi at each loop
+		// head plus merge phis behind conditional steps (`if keep { dest <- x; n++ }`)
+		web := map[ssa.Value]bool{}
+		self := func(o ssa.Value) bool { return web[o] }
+		var grow func(ph *ssa.Phi)
+		grow = func(ph *ssa.Phi) {
+			if web[ph] || len(web) > 16 {
+				return
+			}
+			web[ph] = true
+			for _, e := range ph.Edges {
+				switch y := e.(type) {
+				case *ssa.Phi:
+					grow(y)
+				case *ssa.BinOp:
+					if y.Op != token.ADD && y.Op != token.SUB {
+						continue
+					}
+					if q, isPhi := y.X.(*ssa.Phi); isPhi {
+						if _, isK := ConstInt(y.Y); isK {
+							grow(q)
+						}
+					} else if q, isPhi := y.Y.(*ssa.Phi); isPhi && y.Op == token.ADD {
+						if _, isK := ConstInt(y.X); isK {
+							grow(q)
+						}
+					}
 				}
 			}
 		}
+		grow(x)
+		inits := map[int64]bool{}
+		seenStep := map[*ssa.BinOp]bool{}
+		for m := range web {
+			for _, e := range m.(*ssa.Phi).Edges {
+				switch {
+				case web[e]:
+				case isStep(e, self):
+					if bo := e.(*ssa.BinOp); !seenStep[bo] {
+						seenStep[bo] = true
+						ct.updates = append(ct.updates, bo)
+					}
+				default:
+					if k, isK := ConstInt(e); isK {
+						inits[k] = true
+						ct.initKnown, ct.init = true, k
+					} else {
+						inits[-1<<62] = true
+					}
+				}
+			}
+		}
+		if len(inits) != 1 {
+			ct.initKnown = false
+		}
+		sort.Slice(ct.updates, func(i, j int) bool { return ct.updates[i].Pos() < ct.updates[j].Pos() })
 		return ct, len(ct.updates) > 0
 	case *ssa.UnOp:
 		if x.Op != token.MUL {
@@ -2972,4 +3026,1473 @@ func c01RuleMLowest(p *Program, r *Reporter) {
 		}
 	}
 	r.Floor(rule, 1)
+}
+
+// ===========================================================================
+// E-refill (added beyond the design): enumerators that filter a sub-enumeration
+// and loop to refill the page.
+//
+// Shape (computed, not listed): a function that owns dest (an EnumerateBlobs
+// method of any implementer of BlobEnumerator, or a callee it hands dest to)
+// with a loop L that (a) starts a sub-enumeration (a call of EnumerateBlobs
+// shape on another channel, made directly or by a literal started in L),
+// (b) contains a loop I that receives from that channel until it is closed and
+// sends on dest only on some of I's iterations, and (c) has a back edge
+// reachable after I. One pass of L is a "round".
+//
+// The rule does not match syntax of the tests; it classifies the integer
+// variables of the round by how they evolve (the send counter: 0 before L, +1
+// exactly in the send blocks; the per-round receive counter: 0 at the start
+// of the round, +1 on every iteration of I) and then *evaluates* the code
+// before and after I for every small world
+//
+//	limit in 1..6, sent before the round C0 in 0..limit, requested R,
+//	received S in 0..R (sub-enumerator contract: never more than asked for,
+//	fewer only when nothing follows), sent in this round D in 0..S
+//
+// following both edges of every branch whose condition it cannot evaluate.
+
+type c01Loop struct {
+	head    *ssa.BasicBlock
+	body    map[*ssa.BasicBlock]bool
+	latches []*ssa.BasicBlock
+}
+
+func c01NaturalLoops(fn *ssa.Function) []*c01Loop {
+	byHead := map[*ssa.BasicBlock]*c01Loop{}
+	var out []*c01Loop
+	for _, u := range fn.Blocks {
+		for _, h := range u.Succs {
+			if !h.Dominates(u) {
+				continue
+			}
+			l := byHead[h]
+			if l == nil {
+				l = &c01Loop{head: h, body: map[*ssa.BasicBlock]bool{h: true}}
+				byHead[h] = l
+				out = append(out, l)
+			}
+			l.latches = append(l.latches, u)
+			stack := []*ssa.BasicBlock{u}
+			for len(stack) > 0 {
+				b := stack[len(stack)-1]
+				stack = stack[:len(stack)-1]
+				if l.body[b] {
+					continue
+				}
+				l.body[b] = true
+				stack = append(stack, b.Preds...)
+			}
+		}
+	}
+	return out
+}
+
+func c01InnermostLoop(loops []*c01Loop, b *ssa.BasicBlock) *c01Loop {
+	var best *c01Loop
+	for _, l := range loops {
+		if l.body[b] && (best == nil || len(l.body) < len(best.body)) {
+			best = l
+		}
+	}
+	return best
+}
+
+func c01DominatesAll(b *ssa.BasicBlock, bs []*ssa.BasicBlock) bool {
+	for _, x := range bs {
+		if !b.Dominates(x) {
+			return false
+		}
+	}
+	return len(bs) > 0
+}
+
+type c01Refill struct {
+	inst    *c01Inst
+	body    *c01Body
+	fn      *ssa.Function
+	fc      c01FamCall
+	lit     *ssa.Function   // the literal that makes the call; nil when fn calls directly
+	start   *ssa.BasicBlock // block of fn in which the round's sub-enumeration is started
+	L, I    *c01Loop
+	recv    *ssa.UnOp
+	elem    ssa.Value                // the element received in one iteration of I
+	sendBlk map[*ssa.BasicBlock]bool // blocks of I entered exactly when an element has been sent on dest
+	pre     map[*ssa.BasicBlock]bool // reachable from L's header without entering I
+	post    map[*ssa.BasicBlock]bool // reachable from I's exit without re-entering L's header
+	exits   []*ssa.BasicBlock        // targets of the edges leaving I
+	results map[*ssa.Return][]ssa.Value
+	errIdx  int
+	phiRole map[*ssa.Phi]int
+	celRole map[*ssa.Alloc]int
+}
+
+const (
+	c01RoleUnset = iota
+	c01RoleNone
+	c01RoleSent0   // send counter as it was when the round started (C0)
+	c01RoleSentNow // send counter after the receive loop (C0 + D)
+	c01RoleSeen    // elements received in this round (S)
+	c01RoleSentCell
+	c01RoleSeenCell
+	c01RoleLeft0   // remaining budget when the round started (limit - C0)
+	c01RoleLeftNow // remaining budget after the receive loop (limit - C0 - D)
+	c01RoleLeftCell
+)
+
+// c01SendSuccessBlocks: for a plain send the block of the send; for a select
+// case the block entered on `index == k`.
+func c01SendSuccessBlocks(fn *ssa.Function, sends []c01Send) map[*ssa.BasicBlock]bool {
+	out := map[*ssa.BasicBlock]bool{}
+	for _, s := range sends {
+		if s.in.Parent() != fn {
+			continue
+		}
+		switch x := s.in.(type) {
+		case *ssa.Send:
+			out[x.Block()] = true
+		case *ssa.Select:
+			for _, blk := range fn.Blocks {
+				if len(blk.Instrs) == 0 || len(blk.Succs) != 2 {
+					continue
+				}
+				ifi, ok := blk.Instrs[len(blk.Instrs)-1].(*ssa.If)
+				if !ok {
+					continue
+				}
+				bo, ok := ifi.Cond.(*ssa.BinOp)
+				if !ok || bo.Op != token.EQL {
+					continue
+				}
+				ex, isEx := bo.X.(*ssa.Extract)
+				k, isK := ConstInt(bo.Y)
+				if isEx && isK && ex.Tuple == ssa.Value(x) && ex.Index == 0 && int(k) < len(x.States) &&
+					x.States[k].Dir == types.SendOnly && s.body.isDest(x.States[k].Chan) {
+					out[blk.Succs[0]] = true
+				}
+			}
+		}
+	}
+	return out
+}
+
+// c01FindRefills computes the refill loops of one dest-owning function.
+func c01FindRefills(in *c01Inst) (found []*c01Refill, undecided, notes []string) {
+	loopsOf := map[*ssa.Function][]*c01Loop{}
+	for _, fc := range in.subEnums {
+		// the body function the call belongs to, and the outermost literal below it
+		var body *c01Body
+		var lit *ssa.Function
+		for f := fc.c.Fn; f != nil && body == nil; f = f.Parent() {
+			for _, b := range in.bodies {
+				if b.fn == f {
+					body = b
+				}
+			}
+			if body == nil {
+				lit = f
+			}
+		}
+		if body == nil {
+			continue
+		}
+		fn := body.fn
+		what := "sub-enumeration " + fc.c.CalleeKey()
+		start := fc.c.Block()
+		if lit != nil {
+			start = nil
+			n := 0
+			for _, blk := range fn.Blocks {
+				for _, ins := range blk.Instrs {
+					mc, ok := ins.(*ssa.MakeClosure)
+					if !ok || mc.Fn != ssa.Value(lit) {
+						continue
+					}
+					n++
+					for _, ref := range *mc.Referrers() {
+						ci, isCall := ref.(ssa.CallInstruction)
+						if !isCall {
+							continue
+						}
+						cs := CallSite{fn, ci}
+						if _, isDefer := ci.(*ssa.Defer); isDefer {
+							continue
+						}
+						if ci.Common().Value == ssa.Value(mc) || isSpawner(cs) {
+							start = ci.Block()
+						}
+					}
+				}
+			}
+			if n != 1 {
+				start = nil
+			}
+		}
+		if _, ok := loopsOf[fn]; !ok {
+			loopsOf[fn] = c01NaturalLoops(fn)
+		}
+		loops := loopsOf[fn]
+		var sends []c01Send
+		for _, s := range in.sends {
+			if s.in.Parent() == fn {
+				sends = append(sends, s)
+			}
+		}
+		if start == nil {
+			// cannot tell where the round starts; only a problem when the literal is created in a loop that also sends
+			for _, blk := range fn.Blocks {
+				for _, ins := range blk.Instrs {
+					if mc, ok := ins.(*ssa.MakeClosure); ok && mc.Fn == ssa.Value(lit) {
+						if l := c01InnermostLoop(loops, blk); l != nil {
+							for _, s := range sends {
+								if l.body[s.in.Block()] {
+									undecided = append(undecided, what+" is made by a literal created in a loop that sends on dest, but where that literal runs cannot be determined")
+								}
+							}
+						}
+					}
+				}
+			}
+			continue
+		}
+		L := c01InnermostLoop(loops, start)
+		if L == nil {
+			continue // started once: a plain merge, no refill
+		}
+		var inL []c01Send
+		for _, s := range sends {
+			if L.body[s.in.Block()] {
+				inL = append(inL, s)
+			}
+		}
+		if len(inL) == 0 {
+			notes = append(notes, fmt.Sprintf("%s: %s is started in a loop that does not send on dest (fan-out over sources, not a refill)", FuncKey(fn), what))
+			continue
+		}
+		rf := &c01Refill{inst: in, body: body, fn: fn, fc: fc, lit: lit, start: start, L: L,
+			phiRole: map[*ssa.Phi]int{}, celRole: map[*ssa.Alloc]int{}, results: map[*ssa.Return][]ssa.Value{}, errIdx: ErrResultIndex(fn)}
+		if lit != nil && fc.c.Fn != lit {
+			undecided = append(undecided, what+" is called from a literal nested in the literal started by the loop")
+			continue
+		}
+		// the receive on the sub-enumeration's channel
+		for _, blk := range fn.Blocks {
+			if !L.body[blk] {
+				continue
+			}
+			for _, ins := range blk.Instrs {
+				if u, ok := ins.(*ssa.UnOp); ok && u.Op == token.ARROW && originValue(u.X) == originValue(fc.ch) {
+					if rf.recv != nil && rf.recv != u {
+						undecided = append(undecided, what+": its channel is received from at more than one place in the loop")
+					}
+					rf.recv = u
+				}
+			}
+		}
+		if rf.recv == nil {
+			undecided = append(undecided, what+" is started in a loop that sends on dest, but the loop does not receive from the sub-enumeration's channel directly (helper or peeker): the refill protocol cannot be followed")
+			continue
+		}
+		rf.I = c01InnermostLoop(loops, rf.recv.Block())
+		if rf.I == nil || rf.I == L || rf.I.body[start] || !L.body[rf.I.head] || rf.recv.Block() != rf.I.head {
+			undecided = append(undecided, what+": the elements of a round are not received by a `for range ch`-style loop nested in the refill loop")
+			continue
+		}
+		okShape := rf.recv.CommaOk
+		for blk := range rf.I.body {
+			for si, s := range blk.Succs {
+				if rf.I.body[s] {
+					continue
+				}
+				// the only way out of I is the !ok edge of the receive: the round is drained until the channel is closed
+				ifi, isIf := blk.Instrs[len(blk.Instrs)-1].(*ssa.If)
+				good := false
+				if blk == rf.I.head && isIf && si == 1 {
+					if ex, isEx := ifi.Cond.(*ssa.Extract); isEx && ex.Tuple == ssa.Value(rf.recv) && ex.Index == 1 {
+						good = true
+					}
+				}
+				if !good && c01AbortOnly(rf, s, map[*ssa.BasicBlock]bool{}) {
+					// leaving the function from inside I by panic or with an error is not a refill decision
+					continue
+				}
+				if !good {
+					okShape = false
+				}
+				rf.exits = append(rf.exits, s)
+			}
+		}
+		if !okShape || len(rf.exits) == 0 {
+			undecided = append(undecided, what+": the receive loop is left other than by the sub-enumeration closing its channel; the number of elements received in a round is not defined")
+			continue
+		}
+		if rf.recv.Referrers() != nil {
+			for _, ref := range *rf.recv.Referrers() {
+				if ex, ok := ref.(*ssa.Extract); ok && ex.Index == 0 {
+					rf.elem = ex
+				}
+			}
+		}
+		rf.sendBlk = map[*ssa.BasicBlock]bool{}
+		outside := false
+		for b := range c01SendSuccessBlocks(fn, inL) {
+			if rf.I.body[b] {
+				rf.sendBlk[b] = true
+			} else {
+				outside = true
+			}
+		}
+		for _, s := range inL {
+			if !rf.I.body[s.in.Block()] {
+				outside = true
+			}
+		}
+		if outside || len(rf.sendBlk) == 0 {
+			undecided = append(undecided, what+": the refill loop sends on dest outside the loop that receives the round's elements")
+			continue
+		}
+		filtering := true
+		for b := range rf.sendBlk {
+			if c01DominatesAll(b, rf.I.latches) {
+				filtering = false
+			}
+		}
+		if !filtering {
+			notes = append(notes, fmt.Sprintf("%s: the loop around %s forwards every element it receives (no filter): not a filtering refill", FuncKey(fn), what))
+			continue
+		}
+		// regions
+		rf.pre, rf.post = map[*ssa.BasicBlock]bool{}, map[*ssa.BasicBlock]bool{}
+		var grow func(set map[*ssa.BasicBlock]bool, b *ssa.BasicBlock, stop ...*ssa.BasicBlock)
+		grow = func(set map[*ssa.BasicBlock]bool, b *ssa.BasicBlock, stop ...*ssa.BasicBlock) {
+			if set[b] {
+				return
+			}
+			set[b] = true
+			for _, s := range b.Succs {
+				skip := false
+				for _, st := range stop {
+					if s == st {
+						skip = true
+					}
+				}
+				if !skip {
+					grow(set, s, stop...)
+				}
+			}
+		}
+		grow(rf.pre, L.head, rf.I.head, L.head)
+		for _, e := range rf.exits {
+			grow(rf.post, e, L.head, rf.I.head)
+		}
+		for _, ri := range Returns(fn) {
+			rf.results[ri.Ret] = ri.Results
+		}
+		found = append(found, rf)
+	}
+	return found, undecided, notes
+}
+
+// c01AbortOnly: every path from b leaves the function by panic or by a return
+// that cannot report success, without coming back into the refill loop.
+func c01AbortOnly(rf *c01Refill, b *ssa.BasicBlock, seen map[*ssa.BasicBlock]bool) bool {
+	if rf.L.body[b] {
+		return false
+	}
+	if seen[b] {
+		return true
+	}
+	seen[b] = true
+	switch b.Instrs[len(b.Instrs)-1].(type) {
+	case *ssa.Panic:
+		return true
+	case *ssa.Return:
+		return !c01BlockMayReturnNil(rf, b)
+	}
+	for _, s := range b.Succs {
+		if !c01AbortOnly(rf, s, seen) {
+			return false
+		}
+	}
+	return len(b.Succs) > 0
+}
+
+func c01BlockMayReturnNil(rf *c01Refill, b *ssa.BasicBlock) bool {
+	ret, ok := b.Instrs[len(b.Instrs)-1].(*ssa.Return)
+	if !ok {
+		return false
+	}
+	idx := ErrResultIndex(rf.fn)
+	if idx < 0 || idx >= len(ret.Results) {
+		return true
+	}
+	v := resolveReturnValue(ret.Results[idx], ret)
+	if IsNilConst(v) {
+		return true
+	}
+	if isNonNilErrorExpr(v) {
+		return false
+	}
+	if k, isNil := NilFact(b, v); k && !isNil {
+		return false
+	}
+	if c01CtxErrAfterDone(b, v) {
+		return false
+	}
+	return true
+}
+
+// c01CtxErrAfterDone: v is ctx.Err() evaluated in a block that is entered only
+// through the `case <-ctx.Done():` arm of a select on the same context; by the
+// context contract it is non-nil there.
+func c01CtxErrAfterDone(b *ssa.BasicBlock, v ssa.Value) bool {
+	call, ok := originValue(v).(*ssa.Call)
+	if !ok || !call.Call.IsInvoke() || call.Call.Method.Name() != "Err" || !IsNamed(call.Call.Value.Type(), "context", "Context") {
+		return false
+	}
+	for _, f := range FactsAt(b) {
+		bo, ok := f.Cond.(*ssa.BinOp)
+		if !ok || bo.Op != token.EQL || !f.Val {
+			continue
+		}
+		ex, isEx := bo.X.(*ssa.Extract)
+		k, isK := ConstInt(bo.Y)
+		if !isEx || !isK || ex.Index != 0 {
+			continue
+		}
+		sel, isSel := ex.Tuple.(*ssa.Select)
+		if !isSel || int(k) >= len(sel.States) || sel.States[k].Dir != types.RecvOnly {
+			continue
+		}
+		done, isCall := originValue(sel.States[k].Chan).(*ssa.Call)
+		if isCall && done.Call.IsInvoke() && done.Call.Method.Name() == "Done" && sameOrigin(done.Call.Value, call.Call.Value) {
+			return true
+		}
+	}
+	return false
+}
+
+// loc classifies where an instruction of fn (or of one of its literals) runs
+// relative to the round: "outside" (before the refill loop), "pre", "inner",
+// "post", "both" (shared by pre and post paths) or "lit".
+func (rf *c01Refill) loc(in ssa.Instruction) string {
+	if in.Parent() != rf.fn {
+		return "lit"
+	}
+	b := in.Block()
+	switch {
+	case rf.I.body[b]:
+		return "inner"
+	case rf.pre[b] && rf.post[b]:
+		return "both"
+	case rf.pre[b]:
+		return "pre"
+	case rf.post[b]:
+		return "post"
+	}
+	return "outside"
+}
+
+func c01IsPlusOne(v ssa.Value, self func(ssa.Value) bool) bool {
+	bo, ok := v.(*ssa.BinOp)
+	if !ok || bo.Op != token.ADD {
+		return false
+	}
+	if k, isK := ConstInt(bo.Y); isK && k == 1 && self(bo.X) {
+		return true
+	}
+	if k, isK := ConstInt(bo.X); isK && k == 1 && self(bo.Y) {
+		return true
+	}
+	return false
+}
+
+func c01IsMinusOne(v ssa.Value, self func(ssa.Value) bool) bool {
+	bo, ok := v.(*ssa.BinOp)
+	if !ok {
+		return false
+	}
+	if k, isK := ConstInt(bo.Y); isK && self(bo.X) {
+		return bo.Op == token.SUB && k == 1 || bo.Op == token.ADD && k == -1
+	}
+	return false
+}
+
+// c01IsStep: +1 for a counter of sent elements, -1 for a remaining budget.
+func c01IsStep(v ssa.Value, self func(ssa.Value) bool, down bool) bool {
+	if down {
+		return c01IsMinusOne(v, self)
+	}
+	return c01IsPlusOne(v, self)
+}
+
+func c01IsZeroInt(v ssa.Value) bool {
+	k, ok := ConstInt(v)
+	return ok && k == 0
+}
+
+// roleOfPhi classifies an integer phi by how it evolves over the round.
+func (rf *c01Refill) roleOfPhi(ph *ssa.Phi) int {
+	if r := rf.phiRole[ph]; r != c01RoleUnset {
+		return r
+	}
+	rf.phiRole[ph] = c01RoleNone
+	role := c01RoleNone
+	switch ph.Block() {
+	case rf.I.head:
+		var outs, ins []ssa.Value
+		for i, pred := range ph.Block().Preds {
+			if rf.I.body[pred] {
+				ins = append(ins, ph.Edges[i])
+			} else {
+				outs = append(outs, ph.Edges[i])
+			}
+		}
+		if len(ins) == 0 || len(outs) == 0 {
+			break
+		}
+		// received in this round: 0 on entry, +1 once per iteration
+		seen := true
+		for _, o := range outs {
+			if !c01IsZeroInt(o) {
+				seen = false
+			}
+		}
+		for _, v := range ins {
+			if v != ins[0] {
+				seen = false
+			}
+		}
+		if seen {
+			step, isStep := ins[0].(*ssa.BinOp)
+			if isStep && c01IsPlusOne(step, func(o ssa.Value) bool { return o == ssa.Value(ph) }) && rf.I.body[step.Block()] && c01DominatesAll(step.Block(), rf.I.latches) {
+				role = c01RoleSeen
+				break
+			}
+		}
+		// sent so far: enters as the refill loop's own counter, +1 exactly in the send blocks
+		outer, isPhi := outs[0].(*ssa.Phi)
+		if !isPhi || outer.Block() != rf.L.head {
+			break
+		}
+		okOuter := true
+		for _, o := range outs {
+			if o != ssa.Value(outer) {
+				okOuter = false
+			}
+		}
+		nZero, nLimit := 0, 0
+		for i, pred := range outer.Block().Preds {
+			if rf.L.body[pred] {
+				if outer.Edges[i] != ssa.Value(ph) {
+					okOuter = false
+				}
+			} else if c01IsZeroInt(outer.Edges[i]) {
+				nZero++
+			} else if rf.isLimit(outer.Edges[i]) {
+				nLimit++
+			} else {
+				okOuter = false
+			}
+		}
+		if !okOuter || (nZero > 0) == (nLimit > 0) {
+			break
+		}
+		down := nLimit > 0
+		steps := map[*ssa.BasicBlock]int{}
+		var copyOf func(v ssa.Value, depth int) bool
+		seenPhi := map[ssa.Value]bool{}
+		copyOf = func(v ssa.Value, depth int) bool {
+			if v == ssa.Value(ph) {
+				return true
+			}
+			if depth > 12 {
+				return false
+			}
+			switch x := v.(type) {
+			case *ssa.BinOp:
+				if c01IsStep(x, func(o ssa.Value) bool { return copyOf(o, depth+1) }, down) && rf.sendBlk[x.Block()] {
+					steps[x.Block()]++
+					return true
+				}
+			case *ssa.Phi:
+				if !rf.I.body[x.Block()] || x.Block() == rf.I.head {
+					return false
+				}
+				if seenPhi[x] {
+					return true
+				}
+				seenPhi[x] = true
+				for _, e := range x.Edges {
+					if !copyOf(e, depth+1) {
+						return false
+					}
+				}
+				return true
+			}
+			return false
+		}
+		okSteps := true
+		for _, v := range ins {
+			if !copyOf(v, 0) {
+				okSteps = false
+			}
+		}
+		for b := range rf.sendBlk {
+			if steps[b] != 1 {
+				okSteps = false
+			}
+		}
+		if okSteps && len(steps) == len(rf.sendBlk) {
+			role = c01RoleSentNow
+			rf.phiRole[outer] = c01RoleSent0
+			if down {
+				role = c01RoleLeftNow
+				rf.phiRole[outer] = c01RoleLeft0
+			}
+		}
+	case rf.L.head:
+		// decided from the inner phi it feeds
+		for i, pred := range ph.Block().Preds {
+			if rf.L.body[pred] {
+				if q, ok := ph.Edges[i].(*ssa.Phi); ok && q.Block() == rf.I.head {
+					if rq := rf.roleOfPhi(q); rq == c01RoleSentNow || rq == c01RoleLeftNow {
+						if r := rf.phiRole[ph]; r == c01RoleSent0 || r == c01RoleLeft0 {
+							role = r
+						}
+					}
+				}
+			}
+		}
+	}
+	rf.phiRole[ph] = role
+	return role
+}
+
+// roleOfCell classifies an integer variable that lives in memory (captured by
+// a literal) by the stores to it.
+func (rf *c01Refill) roleOfCell(al *ssa.Alloc) int {
+	if r := rf.celRole[al]; r != c01RoleUnset {
+		return r
+	}
+	rf.celRole[al] = c01RoleNone
+	pt, ok := al.Type().Underlying().(*types.Pointer)
+	if !ok || !c01IsBasic(pt.Elem(), types.Int) || !plainVariable(al) {
+		return c01RoleNone
+	}
+	self := func(o ssa.Value) bool {
+		u, ok := o.(*ssa.UnOp)
+		if !ok || u.Op != token.MUL {
+			return false
+		}
+		c, ok := varOf(u.X)
+		return ok && c == ssa.Value(al)
+	}
+	by := map[string][]*ssa.Store{}
+	for _, st := range storesTo(al) {
+		l := rf.loc(st)
+		by[l] = append(by[l], st)
+	}
+	if len(by["lit"])+len(by["post"])+len(by["both"]) > 0 || len(by["inner"]) == 0 {
+		return c01RoleNone
+	}
+	allocOutside := al.Parent() == rf.fn && rf.loc(al) == "outside"
+	// send counter
+	if allocOutside && len(by["pre"]) == 0 && len(by["outside"]) == 1 && by["outside"][0].Block().Dominates(rf.L.head) &&
+		(c01IsZeroInt(by["outside"][0].Val) || rf.body.isLimit(by["outside"][0].Val)) {
+		down := !c01IsZeroInt(by["outside"][0].Val)
+		steps := map[*ssa.BasicBlock]int{}
+		ok := true
+		for _, st := range by["inner"] {
+			if !c01IsStep(st.Val, self, down) || !rf.sendBlk[st.Block()] {
+				ok = false
+			}
+			steps[st.Block()]++
+		}
+		for b := range rf.sendBlk {
+			if steps[b] != 1 {
+				ok = false
+			}
+		}
+		if ok && len(steps) == len(rf.sendBlk) {
+			role := c01RoleSentCell
+			if down {
+				role = c01RoleLeftCell
+			}
+			rf.celRole[al] = role
+			return role
+		}
+	}
+	// per-round receive counter
+	if len(by["pre"]) == 1 && c01IsZeroInt(by["pre"][0].Val) && by["pre"][0].Block().Dominates(rf.I.head) && len(by["inner"]) == 1 {
+		st := by["inner"][0]
+		if c01IsPlusOne(st.Val, self) && c01DominatesAll(st.Block(), rf.I.latches) {
+			rf.celRole[al] = c01RoleSeenCell
+			return c01RoleSeenCell
+		}
+	}
+	return c01RoleNone
+}
+
+// c01World is one concrete round.
+type c01World struct {
+	L, C0, R, S, D int64
+	post           bool                     // evaluating after the receive loop (false: before it)
+	visited        map[*ssa.BasicBlock]bool // blocks on the current walk
+	ienv           map[*ssa.Phi]int64
+	benv           map[*ssa.Phi]bool
+}
+
+func (w *c01World) String() string {
+	if !w.post {
+		return fmt.Sprintf("limit=%d, %d already sent", w.L, w.C0)
+	}
+	return fmt.Sprintf("limit=%d, %d sent before the round, round asks for %d, receives %d, sends %d of them", w.L, w.C0, w.R, w.S, w.D)
+}
+
+// when tells whether a load of a variable of the round reads its value from
+// before the receive loop (0), from after it (1), or at an unknown time (-1).
+func (rf *c01Refill) when(ld *ssa.UnOp, w *c01World) int {
+	if rf.lit != nil && ld.Parent() == rf.lit {
+		// arguments of the sub-enumeration call are evaluated before it can deliver anything
+		ci := fcInstr(rf.fc)
+		if ld.Block() == ci.Block() && instrIndex(ld) < instrIndex(ci) || ld.Block() != ci.Block() && ld.Block().Dominates(ci.Block()) {
+			return 0
+		}
+		return -1
+	}
+	if ld.Parent() != rf.fn {
+		return -1
+	}
+	b := ld.Block()
+	switch {
+	case w.visited[b]:
+		if w.post {
+			return 1
+		}
+		return 0
+	case rf.I.body[b]:
+		return -1
+	case rf.pre[b] && !rf.post[b] && b.Dominates(rf.I.head):
+		return 0
+	}
+	return -1
+}
+
+func fcInstr(fc c01FamCall) ssa.Instruction { return fc.c.Instr.(ssa.Instruction) }
+
+func (rf *c01Refill) isLimit(v ssa.Value) bool {
+	return rf.body.isLimit(v) || rf.body.isLimit(originValue(v))
+}
+
+// limitLike: v is the enumerator's limit, or a value fixed before the refill
+// loop from the limit and constants only (a clamp such as `if limit > max {
+// limit = max }`), which the round protocol treats as the page size.
+func (rf *c01Refill) limitLike(v ssa.Value, depth int) bool {
+	if rf.isLimit(v) {
+		return true
+	}
+	if depth > 6 {
+		return false
+	}
+	switch x := v.(type) {
+	case *ssa.Phi:
+		if rf.loc(x) != "outside" {
+			return false
+		}
+		has := false
+		for _, e := range x.Edges {
+			if IsConstValue(e) {
+				continue
+			}
+			if !rf.limitLike(e, depth+1) {
+				return false
+			}
+			has = true
+		}
+		return has
+	case *ssa.UnOp:
+		if x.Op != token.MUL {
+			return false
+		}
+		cell, ok := varOf(x.X)
+		if !ok {
+			return false
+		}
+		al, ok := cell.(*ssa.Alloc)
+		if !ok || !plainVariable(al) || al.Parent() != rf.fn {
+			return false
+		}
+		has := false
+		for _, st := range storesTo(al) {
+			if rf.loc(st) != "outside" {
+				return false
+			}
+			if IsConstValue(st.Val) {
+				continue
+			}
+			if !rf.limitLike(st.Val, depth+1) {
+				return false
+			}
+			has = true
+		}
+		return has
+	}
+	return false
+}
+
+func (rf *c01Refill) evalInt(v ssa.Value, w *c01World, depth int) (int64, bool) {
+	if depth > 24 || v == nil {
+		return 0, false
+	}
+	if rf.limitLike(v, 0) {
+		return w.L, true
+	}
+	switch x := v.(type) {
+	case *ssa.Const:
+		return ConstInt(x)
+	case *ssa.Phi:
+		switch rf.roleOfPhi(x) {
+		case c01RoleSent0:
+			return w.C0, true
+		case c01RoleSentNow:
+			return w.C0 + w.D, w.post
+		case c01RoleSeen:
+			return w.S, w.post
+		case c01RoleLeft0:
+			return w.L - w.C0, true
+		case c01RoleLeftNow:
+			return w.L - w.C0 - w.D, w.post
+		}
+		n, ok := w.ienv[x]
+		return n, ok
+	case *ssa.UnOp:
+		switch x.Op {
+		case token.SUB:
+			n, ok := rf.evalInt(x.X, w, depth+1)
+			return -n, ok
+		case token.MUL:
+			if cell, ok := varOf(x.X); ok {
+				if al, isAl := cell.(*ssa.Alloc); isAl {
+					switch rf.roleOfCell(al) {
+					case c01RoleSentCell:
+						switch rf.when(x, w) {
+						case 0:
+							return w.C0, true
+						case 1:
+							return w.C0 + w.D, true
+						}
+						return 0, false
+					case c01RoleLeftCell:
+						switch rf.when(x, w) {
+						case 0:
+							return w.L - w.C0, true
+						case 1:
+							return w.L - w.C0 - w.D, true
+						}
+						return 0, false
+					case c01RoleSeenCell:
+						if rf.when(x, w) == 1 {
+							return w.S, true
+						}
+						return 0, false
+					}
+				}
+			}
+			if o := originValue(x); o != ssa.Value(x) {
+				return rf.evalInt(o, w, depth+1)
+			}
+		}
+	case *ssa.BinOp:
+		a, ok1 := rf.evalInt(x.X, w, depth+1)
+		b, ok2 := rf.evalInt(x.Y, w, depth+1)
+		if !ok1 || !ok2 {
+			return 0, false
+		}
+		switch x.Op {
+		case token.ADD:
+			return a + b, true
+		case token.SUB:
+			return a - b, true
+		case token.MUL:
+			return a * b, true
+		}
+	case *ssa.Convert:
+		if b, ok := x.Type().Underlying().(*types.Basic); ok && b.Info()&types.IsInteger != 0 {
+			if b2, ok := x.X.Type().Underlying().(*types.Basic); ok && b2.Info()&types.IsInteger != 0 {
+				return rf.evalInt(x.X, w, depth+1)
+			}
+		}
+	case *ssa.ChangeType:
+		return rf.evalInt(x.X, w, depth+1)
+	case *ssa.Call:
+		if b, ok := x.Call.Value.(*ssa.Builtin); ok && (b.Name() == "min" || b.Name() == "max") && len(x.Call.Args) > 0 {
+			best, ok := rf.evalInt(x.Call.Args[0], w, depth+1)
+			if !ok {
+				return 0, false
+			}
+			for _, a := range x.Call.Args[1:] {
+				n, ok := rf.evalInt(a, w, depth+1)
+				if !ok {
+					return 0, false
+				}
+				if b.Name() == "min" && n < best || b.Name() == "max" && n > best {
+					best = n
+				}
+			}
+			return best, true
+		}
+	}
+	return 0, false
+}
+
+func (rf *c01Refill) evalBool(v ssa.Value, w *c01World, depth int) (val, known bool) {
+	if depth > 24 || v == nil {
+		return false, false
+	}
+	switch x := v.(type) {
+	case *ssa.Const:
+		if x.Value != nil && (x.Value.String() == "true" || x.Value.String() == "false") {
+			return x.Value.String() == "true", true
+		}
+	case *ssa.Phi:
+		b, ok := w.benv[x]
+		return b, ok
+	case *ssa.UnOp:
+		if x.Op == token.NOT {
+			b, ok := rf.evalBool(x.X, w, depth+1)
+			return !b, ok
+		}
+	case *ssa.BinOp:
+		switch x.Op {
+		case token.LSS, token.LEQ, token.GTR, token.GEQ, token.EQL, token.NEQ:
+		default:
+			return false, false
+		}
+		if !c01IsBasic(x.X.Type(), types.Int) && !c01IsBasic(x.X.Type(), types.Int64) {
+			if c01IsBasic(x.X.Type(), types.Bool) && (x.Op == token.EQL || x.Op == token.NEQ) {
+				a, ok1 := rf.evalBool(x.X, w, depth+1)
+				b, ok2 := rf.evalBool(x.Y, w, depth+1)
+				return (a == b) == (x.Op == token.EQL), ok1 && ok2
+			}
+			return false, false
+		}
+		a, ok1 := rf.evalInt(x.X, w, depth+1)
+		b, ok2 := rf.evalInt(x.Y, w, depth+1)
+		if !ok1 || !ok2 {
+			return false, false
+		}
+		switch x.Op {
+		case token.LSS:
+			return a < b, true
+		case token.LEQ:
+			return a <= b, true
+		case token.GTR:
+			return a > b, true
+		case token.GEQ:
+			return a >= b, true
+		case token.EQL:
+			return a == b, true
+		case token.NEQ:
+			return a != b, true
+		}
+	case *ssa.Call:
+		// last.Valid(), last being zero at the start of the round and overwritten by every received ref
+		f := x.Call.StaticCallee()
+		if w.post && f != nil && funcIs(f, "perkeep.org/pkg/blob", "Ref", "Valid") && len(x.Call.Args) == 1 {
+			if ok, und := rf.lastAtExit(x.Call.Args[0], rf.elemProj, true); ok && !und {
+				return w.S >= 1, true
+			}
+		}
+	}
+	return false, false
+}
+
+// elemProj: e is (a field of) the element received in the current iteration of I.
+func (rf *c01Refill) elemProj(e ssa.Value) bool {
+	for i := 0; i < 6; i++ {
+		o := originValue(e)
+		if o == rf.elem || e == rf.elem {
+			return true
+		}
+		if f, ok := o.(*ssa.Field); ok {
+			e = f.X
+			continue
+		}
+		break
+	}
+	for _, b := range []ssa.Value{c01Base(e), c01Base(originValue(e))} {
+		al, ok := b.(*ssa.Alloc)
+		if !ok {
+			continue
+		}
+		sts := storesTo(al)
+		if len(sts) == 0 {
+			continue
+		}
+		all := true
+		for _, st := range sts {
+			if !(st.Val == rf.elem || originValue(st.Val) == rf.elem) || !rf.I.body[st.Block()] || st.Parent() != rf.fn {
+				all = false
+			}
+		}
+		if all {
+			return true
+		}
+	}
+	return false
+}
+
+// lastAtExit: after the receive loop, v denotes a variable that *every*
+// iteration of the loop overwrites with a value satisfying perIter (so it
+// holds the last element received, not the last one that passed the filter).
+// zeroed additionally demands that the variable is its zero value when the
+// round starts. undecided: partial (field-wise) assignments are not followed.
+func (rf *c01Refill) lastAtExit(v ssa.Value, perIter func(ssa.Value) bool, zeroed bool) (ok, undecided bool) {
+	o := originValue(v)
+	for i := 0; i < 6; i++ {
+		f, isField := o.(*ssa.Field)
+		if !isField {
+			break
+		}
+		o = originValue(f.X)
+	}
+	if ph, isPhi := o.(*ssa.Phi); isPhi {
+		if ph.Block() != rf.I.head {
+			return false, false
+		}
+		n := 0
+		for i, pred := range ph.Block().Preds {
+			if rf.I.body[pred] {
+				if !perIter(ph.Edges[i]) {
+					return false, false
+				}
+				n++
+			} else if zeroed {
+				c, isConst := ph.Edges[i].(*ssa.Const)
+				if !isConst || c.Value != nil {
+					return false, false
+				}
+			}
+		}
+		return n > 0, false
+	}
+	var al *ssa.Alloc
+	for _, b := range []ssa.Value{c01Base(v), c01Base(o)} {
+		if a, isAl := b.(*ssa.Alloc); isAl {
+			al = a
+		}
+	}
+	if al == nil || al.Parent() != rf.fn {
+		return false, false
+	}
+	if al.Referrers() != nil {
+		for _, ref := range *al.Referrers() {
+			switch a := ref.(type) {
+			case *ssa.FieldAddr:
+				for _, r2 := range *a.Referrers() {
+					if st, isSt := r2.(*ssa.Store); isSt && st.Addr == ssa.Value(a) {
+						return false, true
+					}
+				}
+			case *ssa.IndexAddr:
+				return false, true
+			}
+		}
+	}
+	inner, dom := 0, false
+	for _, st := range storesTo(al) {
+		switch rf.loc(st) {
+		case "inner":
+			if !perIter(st.Val) {
+				return false, false
+			}
+			inner++
+			if c01DominatesAll(st.Block(), rf.I.latches) {
+				dom = true
+			}
+		case "post", "lit", "both":
+			return false, false
+		case "pre", "outside":
+			if zeroed {
+				c, isConst := st.Val.(*ssa.Const)
+				if !isConst || c.Value != nil || rf.loc(st) != "pre" {
+					return false, false
+				}
+			}
+		}
+	}
+	if zeroed && rf.loc(al) != "pre" {
+		// a variable declared outside the refill loop keeps the previous round's value
+		hasReset := false
+		for _, st := range storesTo(al) {
+			if rf.loc(st) == "pre" && st.Block().Dominates(rf.I.head) {
+				hasReset = true
+			}
+		}
+		if !hasReset {
+			return false, false
+		}
+	}
+	return inner > 0 && dom, false
+}
+
+// lastRefText: after the receive loop, v is Ref.String() of the last element received.
+func (rf *c01Refill) lastRefText(v ssa.Value) (ok, undecided bool) {
+	und := false
+	// String() of the last received ref
+	if c01RefString(v, func(arg ssa.Value) bool {
+		ok, u := rf.lastAtExit(arg, rf.elemProj, false)
+		und = und || u
+		return ok
+	}) {
+		return true, false
+	}
+	// a string variable overwritten in every iteration with String() of the received ref
+	ok, u := rf.lastAtExit(v, func(e ssa.Value) bool { return c01RefString(e, rf.elemProj) }, false)
+	return ok, !ok && (u || und)
+}
+
+// checkCursor decides, structurally, that the cursor the next round passes to
+// the sub-enumeration is the text of the last element *received* in this round.
+func (rf *c01Refill) checkCursor() (ok, undecided bool, detail string) {
+	cur := rf.fc.after
+	// phi form: the cursor is a loop-carried register
+	if ph, isPhi := originValue(cur).(*ssa.Phi); isPhi && ph.Block() == rf.L.head {
+		for i, pred := range ph.Block().Preds {
+			if !rf.L.body[pred] {
+				continue
+			}
+			ok, und := rf.lastRefText(ph.Edges[i])
+			if und {
+				return false, true, "the variable holding the last received ref is assigned field by field; not followed"
+			}
+			if !ok {
+				return false, false, fmt.Sprintf("on the back edge from block %d the next round's cursor is not Ref.String() of the last element received in this round (it must be the last one *received*: a cursor taken from the last element that passed the filter makes the next round read the filtered tail again, forever when the whole read is filtered)", pred.Index)
+			}
+		}
+		return true, false, ""
+	}
+	ld, isLoad := cur.(*ssa.UnOp)
+	var al *ssa.Alloc
+	if isLoad && ld.Op == token.MUL {
+		if cell, ok := varOf(ld.X); ok {
+			al, _ = cell.(*ssa.Alloc)
+		}
+	}
+	if al == nil {
+		if _, isPrm := originValue(cur).(*ssa.Parameter); isPrm || IsConstValue(originValue(cur)) {
+			return false, false, "every round passes the same cursor to the sub-enumeration: the same elements are read again in each round"
+		}
+		return false, true, "the cursor argument of the sub-enumeration is neither a variable nor a loop-carried value; not followed"
+	}
+	by := map[string][]*ssa.Store{}
+	for _, st := range storesTo(al) {
+		l := rf.loc(st)
+		by[l] = append(by[l], st)
+	}
+	if n := len(by["pre"]) + len(by["lit"]) + len(by["both"]); n > 0 {
+		return false, true, "the cursor variable is also assigned before the round starts or inside a literal; which assignment the next round sees is not followed"
+	}
+	switch {
+	case len(by["post"]) == 0 && len(by["inner"]) == 0:
+		return false, false, "the cursor variable passed to the sub-enumeration is never advanced inside the refill loop: every round reads the same elements again"
+	case len(by["post"]) > 0 && len(by["inner"]) > 0, len(by["post"]) > 1:
+		return false, true, "the cursor variable is assigned at several places of the round; not followed"
+	case len(by["post"]) == 1:
+		st := by["post"][0]
+		if !c01DominatesAll(st.Block(), rf.L.latches) {
+			return false, false, "the cursor is advanced on some paths to the next round only"
+		}
+		ok, und := rf.lastRefText(st.Val)
+		if und {
+			return false, true, "the variable holding the last received ref is assigned field by field; not followed"
+		}
+		if !ok {
+			return false, false, "the cursor stored for the next round is not Ref.String() of the last element *received* in this round (a variable that every iteration of the receive loop overwrites with the received ref): with a cursor taken from the last element that passed the filter, or from anything else, the next round reads the filtered tail again (forever when the whole read is filtered) or skips elements"
+		}
+		return true, false, ""
+	default:
+		dom := false
+		for _, st := range by["inner"] {
+			if !c01RefString(st.Val, rf.elemProj) {
+				return false, false, "inside the receive loop the cursor is assigned something other than Ref.String() of the received element"
+			}
+			if c01DominatesAll(st.Block(), rf.I.latches) {
+				dom = true
+			}
+		}
+		if !dom {
+			return false, false, "the cursor is advanced only for some of the received elements (e.g. only those that pass the filter): the next round reads the filtered tail again"
+		}
+		return true, false, ""
+	}
+}
+
+func IsConstValue(v ssa.Value) bool { _, ok := v.(*ssa.Const); return ok }
+
+const c01RefillMaxLimit = 6
+
+type c01RefillVerdict struct {
+	reqBad, exitBad, progBad []string
+	undecided                []string
+	rounds                   int // worlds in which a round was started
+	exitsSeen, backSeen      int
+}
+
+// walk explores the CFG from blk under world w, following both edges of
+// branches it cannot evaluate. stop blocks end a path with onStop.
+func (rf *c01Refill) walk(w *c01World, blk, prev *ssa.BasicBlock, facts []CondFact, depth int,
+	onReturn func(ret *ssa.Return, facts []CondFact), onStop func(at, from *ssa.BasicBlock, facts []CondFact), stop map[*ssa.BasicBlock]bool) {
+	if depth > 64 {
+		return
+	}
+	if prev != nil && stop[blk] {
+		onStop(blk, prev, facts)
+		return
+	}
+	if w.visited[blk] {
+		return // a loop inside the region: one pass is enough for the facts used here
+	}
+	w.visited[blk] = true
+	defer delete(w.visited, blk)
+	// bind phis along the edge taken
+	type saved struct {
+		ph *ssa.Phi
+		iv int64
+		bv bool
+		hi bool
+		hb bool
+	}
+	var undo []saved
+	for _, in := range blk.Instrs {
+		ph, ok := in.(*ssa.Phi)
+		if !ok {
+			break
+		}
+		iv, hi := w.ienv[ph]
+		bv, hb := w.benv[ph]
+		undo = append(undo, saved{ph, iv, bv, hi, hb})
+		delete(w.ienv, ph)
+		delete(w.benv, ph)
+		if prev == nil || rf.roleOfPhi(ph) != c01RoleNone {
+			continue
+		}
+		for i, pb := range blk.Preds {
+			if pb != prev {
+				continue
+			}
+			if n, ok := rf.evalInt(ph.Edges[i], w, 0); ok && c01IsBasic(ph.Type(), types.Int) {
+				w.ienv[ph] = n
+			} else if b, ok := rf.evalBool(ph.Edges[i], w, 0); ok {
+				w.benv[ph] = b
+			}
+		}
+	}
+	defer func() {
+		for _, s := range undo {
+			delete(w.ienv, s.ph)
+			delete(w.benv, s.ph)
+			if s.hi {
+				w.ienv[s.ph] = s.iv
+			}
+			if s.hb {
+				w.benv[s.ph] = s.bv
+			}
+		}
+	}()
+	switch t := blk.Instrs[len(blk.Instrs)-1].(type) {
+	case *ssa.Return:
+		onReturn(t, facts)
+	case *ssa.If:
+		val, known := rf.evalBool(t.Cond, w, 0)
+		for i, s := range blk.Succs {
+			if known && val != (i == 0) {
+				continue
+			}
+			nf := append(append([]CondFact(nil), facts...), CondFact{t.Cond, i == 0, blk})
+			rf.walk(w, s, blk, nf, depth+1, onReturn, onStop, stop)
+		}
+	case *ssa.Jump:
+		rf.walk(w, blk.Succs[0], blk, facts, depth+1, onReturn, onStop, stop)
+	}
+}
+
+// mayReturnNil: along a path with the given branch facts, can this return report success?
+func (rf *c01Refill) mayReturnNil(ret *ssa.Return, facts []CondFact) bool {
+	if rf.errIdx < 0 {
+		return true
+	}
+	res := rf.results[ret]
+	if rf.errIdx >= len(res) {
+		return true
+	}
+	v := res[rf.errIdx]
+	if IsNilConst(v) {
+		return true
+	}
+	if isNonNilErrorExpr(v) {
+		return false
+	}
+	for _, f := range facts {
+		if k, isNil := condSaysNil(f.Cond, f.Val, v); k {
+			return isNil
+		}
+	}
+	return true
+}
+
+// sendsBoundedInside: some send of the receive loop is controlled by a branch
+// inside that loop whose condition involves the limit.
+func (rf *c01Refill) sendsBoundedInside() bool {
+	for b := range rf.sendBlk {
+		for _, f := range FactsAt(b) {
+			if rf.I.body[f.At] && f.At != rf.I.head && DependsOn(f.Cond, func(v ssa.Value) bool { return rf.body.isLimit(v) }) {
+				return true
+			}
+		}
+	}
+	return false
+}
+
+func (rf *c01Refill) line(pos token.Pos) int { return rf.fn.Prog.Fset.Position(pos).Line }
+
+// decide evaluates the round protocol in every small world.
+func (rf *c01Refill) decide() *c01RefillVerdict {
+	vd := &c01RefillVerdict{}
+	add := func(dst *[]string, s string) {
+		for _, x := range *dst {
+			if x == s {
+				return
+			}
+		}
+		*dst = append(*dst, s)
+	}
+	newWorld := func(L, C0 int64) *c01World {
+		return &c01World{L: L, C0: C0, visited: map[*ssa.BasicBlock]bool{}, ienv: map[*ssa.Phi]int64{}, benv: map[*ssa.Phi]bool{}}
+	}
+	for L := int64(1); L <= c01RefillMaxLimit; L++ {
+		for C0 := int64(0); C0 <= L; C0++ {
+			w := newWorld(L, C0)
+			started := false
+			rf.walk(w, rf.L.head, nil, nil, 0,
+				func(ret *ssa.Return, facts []CondFact) {
+					vd.exitsSeen++
+					if rf.mayReturnNil(ret, facts) && C0 < L {
+						add(&vd.exitBad, fmt.Sprintf("the return at line %d, taken before a round is started, can report success with room left on the page (%s)", rf.line(ret.Pos()), w))
+					}
+				},
+				func(at, from *ssa.BasicBlock, facts []CondFact) {
+					if at == rf.I.head {
+						started = true
+					}
+				}, map[*ssa.BasicBlock]bool{rf.I.head: true, rf.L.head: true})
+			if !started {
+				continue
+			}
+			vd.rounds++
+			R, ok := rf.evalInt(rf.fc.limit, w, 0)
+			if !ok {
+				add(&vd.undecided, "the limit the round passes to the sub-enumeration is not an arithmetic expression over `limit`, constants and a counter stepped exactly where an element is sent on dest")
+				return vd
+			}
+			if R > L-C0 && rf.sendsBoundedInside() {
+				add(&vd.undecided, "a round asks for more than limit-sent elements, but the sends inside the receive loop are themselves guarded by a test on `limit`; a per-element bound inside the receive loop is not modelled")
+				return vd
+			}
+			if R < 1 || R > L-C0 {
+				why := "more than `limit` elements can be sent, because every element that passes the filter is forwarded"
+				if R < 1 {
+					why = "limits below 1 are outside the sub-enumerator's contract, and a round that can receive nothing looks like the end of the enumeration"
+				}
+				add(&vd.reqBad, fmt.Sprintf("with %s a round is started that asks the sub-enumeration for %d element(s) while %d are still missing: %s", w, R, L-C0, why))
+				continue
+			}
+			for S := int64(0); S <= R; S++ {
+				for D := int64(0); D <= S; D++ {
+					w2 := newWorld(L, C0)
+					w2.R, w2.S, w2.D, w2.post = R, S, D, true
+					for _, e := range rf.exits {
+						rf.walk(w2, e, rf.I.head, nil, 0,
+							func(ret *ssa.Return, facts []CondFact) {
+								vd.exitsSeen++
+								if !rf.mayReturnNil(ret, facts) {
+									return
+								}
+								if C0+D >= L || S < R {
+									return
+								}
+								add(&vd.exitBad, fmt.Sprintf("the return at line %d can report success with a short page although the round gives no evidence that the source is exhausted: %s (the sub-enumeration delivered all %d it was asked for, so more may follow; only %d of %d sent)", rf.line(ret.Pos()), w2, R, C0+D, L))
+							},
+							func(at, from *ssa.BasicBlock, facts []CondFact) {
+								if at == rf.I.head {
+									add(&vd.undecided, "the code after the receive loop re-enters it without starting a new round")
+									return
+								}
+								vd.backSeen++
+								if S < 1 {
+									add(&vd.progBad, fmt.Sprintf("another round is started from block %d although this round received nothing (%s): the cursor cannot advance, so the next round is the same round again (or restarts from an empty cursor)", from.Index, w2))
+								}
+							}, map[*ssa.BasicBlock]bool{rf.I.head: true, rf.L.head: true})
+					}
+				}
+			}
+		}
+	}
+	return vd
+}
+
+func c01RuleRefill(p *Program, r *Reporter) {
+	const rule = "E-refill"
+	insts := c01Instances(p, func(string) bool { return true })
+	n := 0
+	for _, in := range insts {
+		refills, undecided, notes := c01FindRefills(in)
+		for _, s := range notes {
+			r.Note("E-refill: %s", s)
+		}
+		for _, u := range undecided {
+			r.Undecided(rule, FuncKey(in.Root)+"#refill-shape", p.Pos(in.Root.Pos()), u)
+		}
+		for _, rf := range refills {
+			n++
+			key := FuncKey(rf.fn)
+			sub := ":" + rf.fc.c.CalleeKey()
+			site := p.Pos(rf.fc.c.Pos())
+			vd := rf.decide()
+			if len(vd.undecided) > 0 || vd.rounds == 0 {
+				d := strings.Join(vd.undecided, "; ")
+				if vd.rounds == 0 {
+					d = "no world (limit 1..6, 0..limit sent) reaches the start of a round; " + d
+				}
+				r.Undecided(rule, key+"#refill-request"+sub, site, d)
+			} else {
+				r.Check(len(vd.reqBad) == 0, rule, key+"#refill-request"+sub, site,
+					fmt.Sprintf("in every world (limit 1..6, 0..limit sent before the round; %d start a round) the round asks the sub-enumeration for at least 1 and at most limit-sent elements, sent being a counter that is 0 before the loop and stepped exactly in the blocks that send on dest", vd.rounds),
+					strings.Join(c01First(vd.reqBad, 2), "; "))
+			}
+			if len(vd.undecided) == 0 && vd.rounds > 0 {
+				r.Check(len(vd.exitBad) == 0, rule, key+"#refill-exit"+sub, site,
+					"every return that can report success is reached only in worlds where the page is full (sent >= limit) or this round received fewer elements than this round asked for (all branch conditions evaluated per world; conditions that cannot be evaluated are taken both ways)",
+					strings.Join(c01First(vd.exitBad, 2), "; "))
+				if vd.backSeen == 0 {
+					r.Undecided(rule, key+"#refill-progress"+sub, site, "no path from the end of the receive loop back to the head of the refill loop was found")
+				} else {
+					r.Check(len(vd.progBad) == 0, rule, key+"#refill-progress"+sub, site,
+						"the refill loop goes round again only in worlds where this round received at least one element",
+						strings.Join(c01First(vd.progBad, 2), "; "))
+				}
+			}
+			ok, und, detail := rf.checkCursor()
+			switch {
+			case und:
+				r.Undecided(rule, key+"#refill-cursor"+sub, site, detail)
+			default:
+				r.Check(ok, rule, key+"#refill-cursor"+sub, site,
+					"the cursor the next round hands to the sub-enumeration is Ref.String() of a variable that every iteration of the receive loop overwrites with the received ref (last received, not last sent), assigned on every path to the next round", detail)
+			}
+		}
+	}
+	r.Analysed("refill_loops", n)
+	r.Floor(rule, 4)
 }
